@@ -449,13 +449,14 @@ func init() {
 			{Scenario: "sbuf.long", Params: vx.P("pairs", "6000000"), Weight: 9},
 			{Scenario: "sbuf.orders", Params: vx.P("n", "4", "plen", "16638"), Weight: 5},
 			{Scenario: "sbuf.bfs", Params: vx.P("n", "10"), Weight: 5},
-			{Scenario: "sesh.orders", Params: vx.P("n", "5"), Bound: 2, Weight: 6},
-			{Scenario: "sesh.orders", Params: vx.P("n", "5", "lateconn", "1"), Bound: 2, Weight: 6},
-			{Scenario: "sesh.orders", Params: vx.P("n", "5", "singleplex", "1"), Bound: 2, Weight: 6},
-			{Scenario: "sesh.orders", Params: vx.P("n", "5", "lateconn", "1", "singleplex", "1"), Bound: 2, Weight: 6},
-			{Scenario: "sesh.orders", Params: vx.P("n", "5", "empty", "2"), Bound: 2, Weight: 6},
-			{Scenario: "sesh.orders", Params: vx.P("n", "5", "empty", "0"), Bound: 2, Weight: 6},
-			{Scenario: "sesh.lag", Params: vx.P("lags", "1,2,63,64,65,127,128,129,255,256,257,511,512,513,1023,1024,1025,2047,2048,2049,4095,4096,4097,10000"), Bound: 1, Weight: 6},
+			{Scenario: "sesh.orders", Params: vx.P("n", "5"), Bound: 2, BudgetS: 900, Weight: 6},
+			{Scenario: "sesh.orders", Params: vx.P("n", "5", "lateconn", "1"), Bound: 2, BudgetS: 900, Weight: 6},
+			{Scenario: "sesh.orders", Params: vx.P("n", "5", "singleplex", "1"), Bound: 2, BudgetS: 900, Weight: 6},
+			{Scenario: "sesh.orders", Params: vx.P("n", "5", "lateconn", "1", "singleplex", "1"), Bound: 2, BudgetS: 900, Weight: 6},
+			{Scenario: "sesh.orders", Params: vx.P("n", "5", "empty", "2"), Bound: 2, BudgetS: 900, Weight: 6},
+			{Scenario: "sesh.orders", Params: vx.P("n", "5", "empty", "0"), Bound: 2, BudgetS: 900, Weight: 6},
+			{Scenario: "sesh.lag", Params: vx.P("lags", "1,2,63,64,65,127,128,129,255,256,257,511,512,513,1023,1024,1025,2047,2048,2049,4095,4096,4097,10000"), Bound: 0, Weight: 6},
+			{Scenario: "sesh.lag", Params: vx.P("lags", "1,2,63,64,65,127,128,129"), Bound: 1, BudgetS: 900, Weight: 6},
 			{Scenario: "sbuf.sched", Params: vx.P("n", "3"), Bound: -1, BudgetS: 900, Weight: 4},
 			{Scenario: "sbuf.sched", Params: vx.P("n", "4"), Bound: 3, BudgetS: 900, Weight: 6},
 			{Scenario: "mux.transfer", Params: vx.P("conns", "2", "streams", "1", "writes", "4,4,4", "unit", "4"), Bound: 2, BudgetS: 900, Weight: 6},
